@@ -126,6 +126,14 @@ class Elem(Spec):
         self.region, self.optional = region, optional
 
 
+class NoneUnless(Spec):
+    """Scalar field of a MapOf object that reads as None in the code unless the boolean field `flag` of the same object is
+    true (an optional limit, for instance).  Contracts read the value and the flag as two ordinary fields."""
+
+    def __init__(self, flag, inner):
+        self.flag, self.inner = flag, inner
+
+
 class SymDict(Spec):
     """dict of concrete size whose keys are symbolic scalars: SymDict((key spec, value spec), ...)."""
 
